@@ -21,6 +21,13 @@
 //! | R       | maximum minimum fmax fmin (extrema.rs) heaviside (misc.rs) copysign nextafter ldexp (floating.rs)    |
 //! | RA      | gcd lcm (rational.rs) — abs() of both operands first                                                 |
 //! | R3      | clip(Some(lo), Some(hi)) (misc.rs)                                                                   |
+//!
+//! Robustness streams (FRAMEWORK.md): EVERY case is executed on three receivers — the plain `a.op(&b)`, the chained
+//! `Ok(a).op(&b)` through `impl … for Result<Array<N>, ArrayError>` (must give the bit-identical answer) and an `Err(_)`
+//! receiver (must stay an error); element types i8 i16 i32 i64 u8 u16 u32 u64 f32 f64 with values at the limits of every
+//! type (saturation of the f64 round trip), beyond 2^53 / 2^63, -0.0, subnormal and sub-EPSILON divisors; operands from
+//! `big_shapes()` (axis lengths 7..17, > 256 / 1024 / 4096 elements, both / one / the other operand stretched) and
+//! `zero_shapes()`; refusal with the zero at the LAST position of a long divisor.
 use arrharness::*;
 
 const NAN_BITS: u64 = 0x7ff8_0000_0000_0000;
@@ -55,6 +62,9 @@ const DIVISION_FAMILY: &[&str] = &["divide", "true_divide", "floor_divide", "fmo
 fn info(name: &str) -> Option<&'static OpInfo> { OPS.iter().find(|x| x.name == name) }
 /// u8 is not `NumericOps`, so `ArrayTrigonometric` (atan2, hypot) is not defined for it; copysign/nextafter/ldexp need `Floating`
 fn types_of(op: &OpInfo) -> &'static [&'static str] { if op.float_only { &["f64"] } else if op.no_u8 { &["i32", "i64", "f64"] } else { &["i32", "i64", "u8", "f64"] } }
+/// the element types added by the robustness streams (`NumericOps` = i8 i16 i32 i64 f32 f64; `Floating` = f32 f64)
+fn types_new(op: &OpInfo) -> &'static [&'static str] { if op.float_only { &["f32"] } else if op.no_u8 { &["i8", "i16", "f32"] } else { &["i8", "i16", "u16", "u32", "u64", "f32"] } }
+fn types_all(op: &OpInfo) -> Vec<&'static str> { types_of(op).iter().chain(types_new(op).iter()).copied().collect() }
 
 // ------------------------------------------------------------------ element types
 
@@ -74,18 +84,55 @@ trait Elem: Numeric + 'static {
     fn shr(self, o: Self) -> Self;
     fn z() -> Self;
     fn u() -> Self;
+    /// the value pool of the original streams (kept as it was, so that their case lines do not change)
     fn pool(d: Dom) -> Vec<Self>;
+    /// the pool of the robustness streams: `pool` + values beyond 2^53 / 2^63, at the limits of the type, sub-EPSILON divisors
+    fn pool_x(d: Dom) -> Vec<Self> { Self::pool(d) }
     /// operations that exist only for some element types (`NumericOps`: atan2, hypot; `Floating`: copysign, nextafter, ldexp)
-    fn call_float(_op: &str, _a: &Array<Self>, _b: &Array<Self>) -> Option<Result<Array<Self>, ArrayError>> { None }
+    fn call_float(_op: &str, _a: &Array<Self>, _b: &Array<Self>, _recv: Recv) -> Option<Result<Array<Self>, ArrayError>> { None }
 }
-fn call_trig<N: NumericOps>(op: &str, a: &Array<N>, b: &Array<N>) -> Option<Result<Array<N>, ArrayError>> {
-    Some(match op { "atan2" => a.atan2(b), "hypot" => a.hypot(b), _ => return None })
+
+/// which receiver the operation is called on
+#[derive(Clone, Copy, PartialEq)]
+enum Recv { Plain, Chained, ErrRecv }
+
+fn ok_of<N: Numeric>(a: &Array<N>) -> Result<Array<N>, ArrayError> { Ok(a.clone()) }
+fn err_of<N: Numeric>(_a: &Array<N>) -> Result<Array<N>, ArrayError> { Err(ArrayError::NotImplemented) }
+/// evaluate `$body` with `$r` bound to `&Array<N>`, to `&Ok(array)` or to `&Err(_)`
+macro_rules! on_recv {
+    ($recv:expr, $a:expr, |$r:ident| $body:expr) => {
+        match $recv {
+            Recv::Plain => { let $r = $a; $body }
+            Recv::Chained => { let tmp = ok_of($a); let $r = &tmp; $body }
+            Recv::ErrRecv => { let tmp = err_of($a); let $r = &tmp; $body }
+        }
+    };
+}
+
+fn trig_on<N: NumericOps, R: ArrayTrigonometric<N>>(r: &R, op: &str, b: &Array<N>) -> Option<Result<Array<N>, ArrayError>> {
+    Some(match op { "atan2" => r.atan2(b), "hypot" => r.hypot(b), _ => return None })
+}
+fn call_trig<N: NumericOps>(op: &str, a: &Array<N>, b: &Array<N>, recv: Recv) -> Option<Result<Array<N>, ArrayError>> {
+    on_recv!(recv, a, |r| trig_on(r, op, b))
+}
+fn no_trig<N: Numeric>(_: &str, _: &Array<N>, _: &Array<N>, _: Recv) -> Option<Result<Array<N>, ArrayError>> { None }
+fn floating_on<N: Floating, R: ArrayFloating<N>>(r: &R, op: &str, b: &Array<N>) -> Option<Result<Array<N>, ArrayError>> {
+    Some(match op {
+        "copysign" => r.copysign(b),
+        "nextafter" => r.nextafter(b),
+        "ldexp" => {
+            // the argument of ldexp is an Array<i32>: same shape, every value cast
+            let bi: Array<i32> = Array::new(b.get_elements().unwrap().iter().map(|&x| x.to_f64() as i32).collect(), b.get_shape().unwrap()).unwrap();
+            r.ldexp(&bi)
+        }
+        _ => return None,
+    })
 }
 
 macro_rules! elem_int {
-    ($t:ty, $pool:expr, $trig:expr) => {
+    ($t:ty, $pool:expr, $extra:expr, $trig:expr) => {
         impl Elem for $t {
-            fn call_float(op: &str, a: &Array<Self>, b: &Array<Self>) -> Option<Result<Array<Self>, ArrayError>> { $trig(op, a, b) }
+            fn call_float(op: &str, a: &Array<Self>, b: &Array<Self>, recv: Recv) -> Option<Result<Array<Self>, ArrayError>> { $trig(op, a, b, recv) }
             fn parse_tok(s: &str) -> Self { s.parse().unwrap() }
             fn tok(self) -> String { self.to_string() }
             fn key(self) -> u64 { self as i64 as u64 }
@@ -99,84 +146,122 @@ macro_rules! elem_int {
             fn shr(self, o: Self) -> Self { self >> o }
             fn z() -> Self { 0 }
             fn u() -> Self { 1 }
-            #[allow(irrefutable_let_patterns)]
-            fn pool(d: Dom) -> Vec<Self> {
-                let general: Vec<i64> = $pool;
-                let v: Vec<i64> = match d {
-                    Dom::General => general,
-                    Dom::Divisor => general.into_iter().filter(|&x| x != 0).collect(),
-                    Dom::Shift | Dom::Exp => (0..8).collect(),
-                    Dom::Small => (-30..=60).collect(),
-                };
-                let mut out: Vec<$t> = vec![];
-                for x in v { if let Ok(y) = <$t>::try_from(x) { if !out.contains(&y) { out.push(y); } } }
-                out
+            fn pool(d: Dom) -> Vec<Self> { int_pool::<$t>(d, $pool) }
+            fn pool_x(d: Dom) -> Vec<Self> { let mut v: Vec<i128> = $pool; v.extend::<Vec<i128>>($extra); int_pool::<$t>(d, v) }
+        }
+    };
+}
+fn int_pool<T: TryFrom<i128> + PartialEq>(d: Dom, general: Vec<i128>) -> Vec<T> {
+    let v: Vec<i128> = match d {
+        Dom::General => general,
+        Dom::Divisor => general.into_iter().filter(|&x| x != 0).collect(),
+        Dom::Shift | Dom::Exp => (0..8).collect(),
+        Dom::Small => (-30..=60).collect(),
+    };
+    let mut out: Vec<T> = vec![];
+    for x in v { if let Ok(y) = T::try_from(x) { if !out.contains(&y) { out.push(y); } } }
+    out
+}
+fn small_ints() -> Vec<i128> { (-9..=20).collect() }
+fn with_small(extra: &[i128]) -> Vec<i128> { let mut v = small_ints(); v.extend_from_slice(extra); v }
+elem_int!(i32, with_small(&[i32::MIN as i128, i32::MIN as i128 + 1, i32::MAX as i128, i32::MAX as i128 - 1, 1 << 30, -(1 << 30), 65535, 65536, -65536, 46340, 46341, 1000, -1000, 12345, -54321, 255, 256, -128]),
+    vec![32767, 32768, -32769, 16777216, 16777217, 127, 128], call_trig::<i32>);
+elem_int!(i64, with_small(&[2147483647, -2147483647, 2147483648, -2147483648, 2147483649, -2147483649, 4294967296, -4294967296, 4294967295, 1 << 40, -(1 << 40),
+    1 << 53, -(1 << 53), (1 << 53) - 1, 1000000007, -99999, 65536, 3037000499, 255, 256]),
+    // beyond 2^53 the f64 round trip loses bits; at the limits the cast back saturates
+    vec![(1 << 53) + 1, -((1 << 53) + 1), (1 << 53) + 2, (1 << 53) + 3, (1 << 60) + 1, (1 << 62) + 3, -((1 << 62) + 5), i64::MAX as i128, i64::MAX as i128 - 1, i64::MAX as i128 - 512,
+         i64::MIN as i128, i64::MIN as i128 + 1, 1 << 62, 3037000500, 9007199254740993, 4611686018427387905], call_trig::<i64>);
+elem_int!(u8, (0..=255).collect(), vec![], no_trig::<u8>);
+elem_int!(i8, (-128..=127).collect(), vec![], call_trig::<i8>);
+elem_int!(i16, with_small(&[32767, 32766, -32768, -32767, 255, 256, 181, 182, -181, -182, 127, 128, -128, -129, 1000, -1000, 12345, 16384, -16384, 16383, 100, -100]), vec![], call_trig::<i16>);
+elem_int!(u16, with_small(&[65535, 65534, 65280, 255, 256, 257, 32767, 32768, 1000, 12345, 4096, 181, 182, 100, 40000]), vec![], no_trig::<u16>);
+elem_int!(u32, with_small(&[u32::MAX as i128, u32::MAX as i128 - 1, 1 << 31, (1 << 31) - 1, (1 << 31) + 1, 65535, 65536, 65537, 46340, 46341, 255, 256, 1000000007, 12345, 3000000000, 16777217]), vec![], no_trig::<u32>);
+elem_int!(u64, with_small(&[u64::MAX as i128, u64::MAX as i128 - 1, u64::MAX as i128 - 2048, 1 << 63, (1 << 63) - 1, (1 << 63) + 1, (1 << 63) + 4096, 3 << 62, 1 << 53, (1 << 53) + 1, (1 << 53) - 1, 1 << 32, (1 << 32) - 1,
+    65536, 255, 256, 1000000007, 4294967297, 9007199254740993]), vec![], no_trig::<u64>);
+
+fn f64_general() -> Vec<f64> {
+    vec![0.0, -0.0, 1.0, -1.0, 0.5, -0.5, 1.5, 2.0, -2.0, 2.5, 3.0, -3.0, 3.75, 7.0, 10.0, -10.0, 0.1, -0.3, 1e-3, 1e10, -1e10,
+        2147483648.0, -2147483649.0, 4294967296.5, 1e308, -1e308, 5e-324, -5e-324, 1.1125369292536007e-308, -1.1125369292536007e-308, f64::MIN_POSITIVE,
+        f64::INFINITY, f64::NEG_INFINITY, f64::NAN, std::f64::consts::PI, std::f64::consts::E, 1e-300, 123456.789, -0.001, 9007199254740992.0, 6.0, 12.0, 255.0, 256.0, -7.25, 100.0]
+}
+/// tiny non-zero divisors around f64::EPSILON / f32::EPSILON, f32 subnormals, values around 2^24 / 2^63 / 2^64 / f32::MAX
+fn f64_extra() -> Vec<f64> {
+    vec![1e-17, -2.5e-17, 1e-20, 2.2e-16, -2.2e-16, 2.3e-16, 1.1e-7, -1.1e-7, 1e-40, -1e-40, 1.401298464324817e-45, 1.1754943508222875e-38, 16777216.0, 16777217.0, -16777217.0,
+        9223372036854775808.0, -9223372036854775808.0, 18446744073709551616.0, 1e19, -1e19, 3.4028234663852886e38, 3.5e38, -3.5e38, 0.30000000000000004, 4503599627370497.0, -4503599627370496.5]
+}
+macro_rules! elem_float {
+    ($t:ty, $ti:ty) => {
+        impl Elem for $t {
+            // values travel as the bit pattern of the (exactly) widened f64, so that the model driver recognises +-0.0 of either width
+            fn parse_tok(s: &str) -> Self { f64::from_bits(u64::from_str_radix(s.strip_prefix('x').unwrap(), 16).unwrap()) as $t }
+            fn tok(self) -> String { format!("x{:016x}", (self as f64).to_bits()) }
+            fn key(self) -> u64 { if self.is_nan() { NAN_BITS } else { (self as f64).to_bits() } }
+            fn f(self) -> f64 { self as f64 }
+            fn t(v: f64) -> Self { v as $t }
+            fn i(self) -> i32 { self as i32 }
+            fn band(self, o: Self) -> Self { (self as $ti & o as $ti) as $t }
+            fn bor(self, o: Self) -> Self { (self as $ti | o as $ti) as $t }
+            fn bxor(self, o: Self) -> Self { (self as $ti ^ o as $ti) as $t }
+            fn shl(self, o: Self) -> Self { ((self as $ti) << (o as $ti)) as $t }
+            fn shr(self, o: Self) -> Self { ((self as $ti) >> (o as $ti)) as $t }
+            fn z() -> Self { 0.0 }
+            fn u() -> Self { 1.0 }
+            fn pool(d: Dom) -> Vec<Self> { float_pool::<$t>(d, f64_general()) }
+            fn pool_x(d: Dom) -> Vec<Self> { let mut g = f64_general(); g.extend(f64_extra()); float_pool::<$t>(d, g) }
+            fn call_float(op: &str, a: &Array<Self>, b: &Array<Self>, recv: Recv) -> Option<Result<Array<Self>, ArrayError>> {
+                match op {
+                    "copysign" | "nextafter" | "ldexp" => on_recv!(recv, a, |r| floating_on(r, op, b)),
+                    _ => call_trig(op, a, b, recv),
+                }
             }
         }
     };
 }
-fn small_ints() -> Vec<i64> { (-9..=20).collect() }
-elem_int!(i32, { let mut v = small_ints(); v.extend([i32::MIN as i64, i32::MIN as i64 + 1, i32::MAX as i64, i32::MAX as i64 - 1, 1 << 30, -(1 << 30), 65535, 65536, -65536, 46340, 46341, 1000, -1000, 12345, -54321, 255, 256, -128]); v }, call_trig::<i32>);
-elem_int!(i64, { let mut v = small_ints(); v.extend([2147483647, -2147483647, 2147483648, -2147483648, 2147483649, -2147483649, 4294967296, -4294967296, 4294967295, 1 << 40, -(1 << 40),
-    1 << 53, -(1 << 53), (1 << 53) - 1, 1000000007, -99999, 65536, 3037000499, 255, 256]); v }, call_trig::<i64>);
-elem_int!(u8, (0..=255).collect(), |_: &str, _: &Array<u8>, _: &Array<u8>| None);
-
-impl Elem for f64 {
-    fn parse_tok(s: &str) -> Self { f64::from_bits(u64::from_str_radix(s.strip_prefix('x').unwrap(), 16).unwrap()) }
-    fn tok(self) -> String { format!("x{:016x}", self.to_bits()) }
-    fn key(self) -> u64 { if self.is_nan() { NAN_BITS } else { self.to_bits() } }
-    fn f(self) -> f64 { self }
-    fn t(v: f64) -> Self { v }
-    fn i(self) -> i32 { self as i32 }
-    fn band(self, o: Self) -> Self { (self as i128 & o as i128) as f64 }
-    fn bor(self, o: Self) -> Self { (self as i128 | o as i128) as f64 }
-    fn bxor(self, o: Self) -> Self { (self as i128 ^ o as i128) as f64 }
-    fn shl(self, o: Self) -> Self { ((self as i128) << (o as i128)) as f64 }
-    fn shr(self, o: Self) -> Self { ((self as i128) >> (o as i128)) as f64 }
-    fn z() -> Self { 0.0 }
-    fn u() -> Self { 1.0 }
-    fn pool(d: Dom) -> Vec<Self> {
-        let general = vec![0.0, -0.0, 1.0, -1.0, 0.5, -0.5, 1.5, 2.0, -2.0, 2.5, 3.0, -3.0, 3.75, 7.0, 10.0, -10.0, 0.1, -0.3, 1e-3, 1e10, -1e10,
-            2147483648.0, -2147483649.0, 4294967296.5, 1e308, -1e308, 5e-324, -5e-324, 1.1125369292536007e-308, -1.1125369292536007e-308, f64::MIN_POSITIVE,
-            f64::INFINITY, f64::NEG_INFINITY, f64::NAN, std::f64::consts::PI, std::f64::consts::E, 1e-300, 123456.789, -0.001, 9007199254740992.0, 6.0, 12.0, 255.0, 256.0, -7.25, 100.0];
-        match d {
-            Dom::General => general,
-            Dom::Divisor => general.into_iter().filter(|&x| x != 0.0).collect(),
-            Dom::Shift => (0..8).map(|x| x as f64).collect(),
-            Dom::Exp => (-5..=10).map(|x| x as f64).collect(),
-            Dom::Small => { let mut v: Vec<f64> = (-30..=60).map(|x| x as f64).collect(); v.extend([-0.0, 0.5, -0.5, 7.9, 12.25]); v }
-        }
+/// the f64 lists, cast to the element type; a value that repeats after the cast (f32) is kept once; for f64 the lists are as written
+fn float_pool<T: Elem>(d: Dom, general: Vec<f64>) -> Vec<T> {
+    let v: Vec<f64> = match d {
+        Dom::General => general,
+        Dom::Divisor => general,
+        Dom::Shift => (0..8).map(|x| x as f64).collect(),
+        Dom::Exp => (-5..=10).map(|x| x as f64).collect(),
+        Dom::Small => { let mut v: Vec<f64> = (-30..=60).map(|x| x as f64).collect(); v.extend([-0.0, 0.5, -0.5, 7.9, 12.25]); v }
+    };
+    let mut out: Vec<T> = vec![];
+    for x in v {
+        let y = T::t(x);
+        // the divisor pool holds no zero OF THE ELEMENT TYPE (5e-324 is a zero as f32)
+        if d == Dom::Divisor && y.f() == 0.0 { continue; }
+        if std::mem::size_of::<T>() == 8 || !out.iter().any(|o| o.key() == y.key()) { out.push(y); }
     }
-    fn call_float(op: &str, a: &Array<f64>, b: &Array<f64>) -> Option<Result<Array<f64>, ArrayError>> {
-        Some(match op {
-            "copysign" => a.copysign(b),
-            "nextafter" => a.nextafter(b),
-            "ldexp" => {
-                // the argument of ldexp is an Array<i32>: same shape, every value cast
-                let bi: Array<i32> = Array::new(b.get_elements().unwrap().iter().map(|&x| x as i32).collect(), b.get_shape().unwrap()).unwrap();
-                a.ldexp(&bi)
-            }
-            _ => return call_trig(op, a, b),
-        })
-    }
+    out
 }
+elem_float!(f64, i128);
+elem_float!(f32, i64);
 
 // ------------------------------------------------------------------ calling the real crate
 
-fn call<N: Elem>(op: &str, a: &Array<N>, b: &Array<N>) -> Option<Result<Array<N>, ArrayError>> {
+/// the operations of the traits implemented both for `Array<N>` and for `Result<Array<N>, ArrayError>`, on either receiver
+fn call_on<N: Elem, R>(r: &R, op: &str, b: &Array<N>) -> Option<Result<Array<N>, ArrayError>>
+where R: ArrayArithmetic<N> + ArrayExpLog<N> + ArrayBinary<N> + ArrayExtrema<N> + ArrayMathMisc<N> + ArrayRational<N> {
     Some(match op {
-        "add" => a.add(b), "subtract" => a.subtract(b), "multiply" => a.multiply(b), "divide" => a.divide(b), "true_divide" => a.true_divide(b),
-        "floor_divide" => a.floor_divide(b), "power" => a.power(b), "float_power" => a.float_power(b), "fmod" => a.fmod(b), "mod" => a.r#mod(b),
-        "remainder" => a.remainder(b),
-        "logn" => a.logn(b), "log_add_exp" => a.log_add_exp(b), "log_add_exp2" => a.log_add_exp2(b),
-        "bitwise_and" => a.bitwise_and(b), "bitwise_or" => a.bitwise_or(b), "bitwise_xor" => a.bitwise_xor(b),
-        "left_shift" => a.left_shift(b), "right_shift" => a.right_shift(b),
-        "maximum" => a.maximum(b), "minimum" => a.minimum(b), "fmax" => a.fmax(b), "fmin" => a.fmin(b),
-        "heaviside" => a.heaviside(b),
-        "gcd" => a.gcd(b), "lcm" => a.lcm(b),
-        _ => return N::call_float(op, a, b),
+        "add" => r.add(b), "subtract" => r.subtract(b), "multiply" => r.multiply(b), "divide" => r.divide(b), "true_divide" => r.true_divide(b),
+        "floor_divide" => r.floor_divide(b), "power" => r.power(b), "float_power" => r.float_power(b), "fmod" => r.fmod(b), "mod" => r.r#mod(b),
+        "remainder" => r.remainder(b),
+        "logn" => r.logn(b), "log_add_exp" => r.log_add_exp(b), "log_add_exp2" => r.log_add_exp2(b),
+        "bitwise_and" => r.bitwise_and(b), "bitwise_or" => r.bitwise_or(b), "bitwise_xor" => r.bitwise_xor(b),
+        "left_shift" => r.left_shift(b), "right_shift" => r.right_shift(b),
+        "maximum" => r.maximum(b), "minimum" => r.minimum(b), "fmax" => r.fmax(b), "fmin" => r.fmin(b),
+        "heaviside" => r.heaviside(b),
+        "gcd" => r.gcd(b), "lcm" => r.lcm(b),
+        _ => return None,
     })
 }
+fn call_recv<N: Elem>(op: &str, a: &Array<N>, b: &Array<N>, recv: Recv) -> Option<Result<Array<N>, ArrayError>> {
+    match on_recv!(recv, a, |r| call_on(r, op, b)) { Some(x) => Some(x), None => N::call_float(op, a, b, recv) }
+}
+fn call<N: Elem>(op: &str, a: &Array<N>, b: &Array<N>) -> Option<Result<Array<N>, ArrayError>> { call_recv(op, a, b, Recv::Plain) }
+fn clip_on<N: Elem, R: ArrayMathMisc<N>>(r: &R, lo: &Array<N>, hi: &Array<N>) -> Result<Array<N>, ArrayError> { r.clip(Some(lo.clone()), Some(hi.clone())) }
+fn clip_recv<N: Elem>(a: &Array<N>, lo: &Array<N>, hi: &Array<N>, recv: Recv) -> Result<Array<N>, ArrayError> { on_recv!(recv, a, |r| clip_on(r, lo, hi)) }
 
 /// the scalar kernel written natively (own casts, std f64 methods) — `None` for kernels that are not one-liners
 fn native<N: Elem>(op: &str, x: N, y: N) -> Option<N> {
@@ -286,29 +371,50 @@ fn obs_text<N: Elem>(o: &Obs<N>) -> String {
 }
 
 /// compare an observed result with the model's index answer, position by position
-fn check_positions<N: Elem>(obs: Obs<N>, expected: &str, kernel: &dyn Fn(&[usize]) -> Result<Vec<(&'static str, N)>, String>) -> Verdict {
-    match (&obs, class_of(expected)) {
+fn check_positions<N: Elem>(obs: &Obs<N>, expected: &str, kernel: &dyn Fn(&[usize]) -> Result<Vec<(&'static str, N)>, String>) -> Verdict {
+    match (obs, class_of(expected)) {
         (Obs::Err(e), "err") => Verdict::Match(format!("err {e}")),
         (Obs::Panic, "panic") => Verdict::Match("panic".into()),
         (Obs::Ok(shape, vals, cons), "ok") => {
-            let Some((eshape, idx)) = parse_expected(expected) else { return Verdict::Mismatch { observed: obs_text(&obs), detail: "harness: unparsable model answer".into() } };
-            if !cons { return Verdict::Mismatch { observed: obs_text(&obs), detail: "result array is inconsistent (C01 monitor)".into() }; }
-            if *shape != eshape { return Verdict::Mismatch { observed: obs_text(&obs), detail: format!("shape {:?}, the model says {:?}", shape, eshape) }; }
-            if vals.len() != idx.len() { return Verdict::Mismatch { observed: obs_text(&obs), detail: format!("{} elements, the model says {}", vals.len(), idx.len()) }; }
+            let Some((eshape, idx)) = parse_expected(expected) else { return Verdict::Mismatch { observed: obs_text(obs), detail: "harness: unparsable model answer".into() } };
+            if !cons { return Verdict::Mismatch { observed: obs_text(obs), detail: "result array is inconsistent (C01 monitor)".into() }; }
+            if *shape != eshape { return Verdict::Mismatch { observed: obs_text(obs), detail: format!("shape {:?}, the model says {:?}", shape, eshape) }; }
+            if vals.len() != idx.len() { return Verdict::Mismatch { observed: obs_text(obs), detail: format!("{} elements, the model says {}", vals.len(), idx.len()) }; }
             for (p, src) in idx.iter().enumerate() {
                 match kernel(src) {
-                    Err(why) => return Verdict::Mismatch { observed: obs_text(&obs), detail: format!("position {p}: scalar oracle at sources {:?} failed: {why}", src) },
+                    Err(why) => return Verdict::Mismatch { observed: obs_text(obs), detail: format!("position {p}: scalar oracle at sources {:?} failed: {why}", src) },
                     Ok(wants) => for (which, w) in wants {
                         if w.key() != vals[p].key() {
-                            return Verdict::Mismatch { observed: obs_text(&obs), detail: format!("position {p}: got {} but the {which} kernel on the elements at flat indices {:?} gives {}", vals[p].tok(), src, w.tok()) };
+                            return Verdict::Mismatch { observed: obs_text(obs), detail: format!("position {p}: got {} but the {which} kernel on the elements at flat indices {:?} gives {}", vals[p].tok(), src, w.tok()) };
                         }
                     }
                 }
             }
             Verdict::Match(expected.to_string())
         }
-        _ => Verdict::Mismatch { observed: obs_text(&obs), detail: format!("model says `{}`", truncate(expected, 300)) },
+        _ => Verdict::Mismatch { observed: obs_text(obs), detail: format!("model says `{}`", truncate(expected, 300)) },
     }
+}
+
+/// The same call on `Ok(array)` must give the bit-identical answer (same shape, same element bits, same outcome class) and on
+/// an `Err(_)` receiver it must stay an error.  `None` = the receivers agree.
+fn receivers_agree<N: Elem>(plain: &Obs<N>, chained: &Obs<N>, on_err: &Obs<N>) -> Option<Verdict> {
+    let same = match (plain, chained) {
+        (Obs::Ok(s1, v1, c1), Obs::Ok(s2, v2, c2)) => s1 == s2 && c1 == c2 && v1.len() == v2.len() && v1.iter().zip(v2).all(|(x, y)| x.key() == y.key()),
+        (Obs::Err(_), Obs::Err(_)) | (Obs::Panic, Obs::Panic) => true,
+        _ => false,
+    };
+    if !same {
+        let first = match (plain, chained) {
+            (Obs::Ok(_, v1, _), Obs::Ok(_, v2, _)) => v1.iter().zip(v2).position(|(x, y)| x.key() != y.key()).map_or(String::new(), |p| format!(" (first difference at flat position {p}: {} vs {})", v2[p].tok(), v1[p].tok())),
+            _ => String::new() };
+        return Some(Verdict::Mismatch { observed: format!("RECEIVER-DIVERGENCE chained: {}", truncate(&obs_text(chained), 600)),
+            detail: format!("the call on `Ok(array)` (impl for Result<Array<N>, ArrayError>) differs from the plain call, which gives `{}`{first}", truncate(&obs_text(plain), 600)) });
+    }
+    if !matches!(on_err, Obs::Err(_)) {
+        return Some(Verdict::Mismatch { observed: format!("RECEIVER-DIVERGENCE on Err(_): {}", truncate(&obs_text(on_err), 300)), detail: "the call on an `Err(_)` receiver must return the error".into() });
+    }
+    None
 }
 
 fn run_op<N: Elem>(op: &str, pat: &str, a_s: &str, b_s: &str, expected: &str) -> Option<Verdict> {
@@ -317,28 +423,34 @@ fn run_op<N: Elem>(op: &str, pat: &str, a_s: &str, b_s: &str, expected: &str) ->
     let (pa, pb) = (parse_vals::<N>(a_s)?, parse_vals::<N>(b_s)?);
     let (a, b) = (mk(&pa), mk(&pb));
     let obs = observe(|| call(op, &a, &b))?;
+    let chained = observe(|| call_recv(op, &a, &b, Recv::Chained))?;
+    let on_err = observe(|| call_recv(op, &a, &b, Recv::ErrRecv))?;
     // receiver-shaped family: an argument of the same element count that is not a stretch of the receiver's shape is the
     // region C03 leaves open (broadcast_to's equal-count shortcut); compared only when it agrees
     let open = matches!(pat, "R" | "RA") && !stretchable(&pb.0, &pa.0) && pa.1.len() == pb.1.len();
     let (va, vb) = (pa.1.clone(), pb.1.clone());
     let opn = op.to_string();
-    let v = check_positions(obs, expected, &move |src: &[usize]| {
+    let v = check_positions(&obs, expected, &move |src: &[usize]| {
         let (x, y) = (*va.get(src[0]).ok_or("source index out of range")?, *vb.get(src[1]).ok_or("source index out of range")?);
         let mut w = vec![];
         if let Some(n) = native(&opn, x, y) { w.push(("native", n)); }
         w.push(("one-element-array", single(&opn, x, y)?));
         Ok(w)
     });
-    Some(match v { Verdict::Mismatch { observed, .. } if open => Verdict::Open(observed), v => v })
+    Some(match v {
+        Verdict::Mismatch { observed, detail } => if open { receivers_agree(&obs, &chained, &on_err).unwrap_or(Verdict::Open(observed)) } else { Verdict::Mismatch { observed, detail } },
+        v => receivers_agree(&obs, &chained, &on_err).unwrap_or(v) })
 }
 
 fn run_clip<N: Elem>(a_s: &str, lo_s: &str, hi_s: &str, expected: &str) -> Option<Verdict> {
     let (pa, pl, ph) = (parse_vals::<N>(a_s)?, parse_vals::<N>(lo_s)?, parse_vals::<N>(hi_s)?);
     let (a, lo, hi) = (mk(&pa), mk(&pl), mk(&ph));
-    let obs = observe(|| Some(a.clip(Some(lo.clone()), Some(hi.clone()))))?;
+    let obs = observe(|| Some(clip_recv(&a, &lo, &hi, Recv::Plain)))?;
+    let chained = observe(|| Some(clip_recv(&a, &lo, &hi, Recv::Chained)))?;
+    let on_err = observe(|| Some(clip_recv(&a, &lo, &hi, Recv::ErrRecv)))?;
     let open = (!stretchable(&pl.0, &pa.0) && pa.1.len() == pl.1.len()) || (!stretchable(&ph.0, &pa.0) && pa.1.len() == ph.1.len());
     let (va, vl, vh) = (pa.1.clone(), pl.1.clone(), ph.1.clone());
-    let v = check_positions(obs, expected, &move |src: &[usize]| {
+    let v = check_positions(&obs, expected, &move |src: &[usize]| {
         let (x, l, h) = (*va.get(src[0]).ok_or("index")?, *vl.get(src[1]).ok_or("index")?, *vh.get(src[2]).ok_or("index")?);
         let nat = if x < l { l } else if x > h { h } else { x };
         let one = |v: N| Array::new(vec![v], vec![1]).unwrap();
@@ -346,7 +458,9 @@ fn run_clip<N: Elem>(a_s: &str, lo_s: &str, hi_s: &str, expected: &str) -> Optio
             Ok(Ok(r)) => r.get_elements().unwrap()[0], Ok(Err(e)) => return Err(format!("err {}", err_name(&e))), Err(_) => return Err("panic".into()) };
         Ok(vec![("native", nat), ("one-element-array", s)])
     });
-    Some(match v { Verdict::Mismatch { observed, .. } if open => Verdict::Open(observed), v => v })
+    Some(match v {
+        Verdict::Mismatch { observed, detail } => if open { receivers_agree(&obs, &chained, &on_err).unwrap_or(Verdict::Open(observed)) } else { Verdict::Mismatch { observed, detail } },
+        v => receivers_agree(&obs, &chained, &on_err).unwrap_or(v) })
 }
 
 /// commutativity observed directly on the code
@@ -384,7 +498,8 @@ fn run_comm<N: Elem>(op: &str, pat: &str, a_s: &str, b_s: &str, expected: &str) 
 }
 
 fn exec(op: &str, args: &[&str], expected: &str) -> Option<Verdict> {
-    macro_rules! by_type { ($ty:expr, $f:ident, $($arg:expr),*) => { match $ty { "i32" => $f::<i32>($($arg),*), "i64" => $f::<i64>($($arg),*), "u8" => $f::<u8>($($arg),*), "f64" => $f::<f64>($($arg),*), _ => None } } }
+    macro_rules! by_type { ($ty:expr, $f:ident, $($arg:expr),*) => { match $ty { "i32" => $f::<i32>($($arg),*), "i64" => $f::<i64>($($arg),*), "u8" => $f::<u8>($($arg),*), "f64" => $f::<f64>($($arg),*),
+        "i8" => $f::<i8>($($arg),*), "i16" => $f::<i16>($($arg),*), "u16" => $f::<u16>($($arg),*), "u32" => $f::<u32>($($arg),*), "u64" => $f::<u64>($($arg),*), "f32" => $f::<f32>($($arg),*), _ => None } } }
     match op {
         "comm" => { if args.len() != 5 { return None; } by_type!(args[2], run_comm, args[0], args[1], args[3], args[4], expected) }
         "clip" => { if args.len() != 5 || args[0] != "R3" { return None; } by_type!(args[1], run_clip, args[2], args[3], args[4], expected) }
@@ -397,27 +512,66 @@ fn exec(op: &str, args: &[&str], expected: &str) -> Option<Verdict> {
 fn hash_str(s: &str) -> u64 { let mut h: u64 = 0xcbf29ce484222325; for b in s.bytes() { h ^= b as u64; h = h.wrapping_mul(0x100000001b3); } h }
 
 /// `n` values from the pool, without repetition while the pool lasts (distinct values expose a permuted result)
-fn draw<N: Elem>(rng: &mut Rng, d: Dom, n: usize) -> Vec<N> {
-    let pool = N::pool(d);
+fn draw<N: Elem>(rng: &mut Rng, d: Dom, n: usize, ext: bool) -> Vec<N> {
+    let pool = if ext { N::pool_x(d) } else { N::pool(d) };
     let perm = rng.perm(pool.len());
     (0..n).map(|k| if k < pool.len() { pool[perm[k]] } else { pool[rng.below(pool.len())] }).collect()
 }
 
-fn fill<N: Elem>(rng: &mut Rng, oi: &OpInfo, sa: &[usize], sb: &[usize]) -> (String, String) {
+fn fill<N: Elem>(rng: &mut Rng, oi: &OpInfo, sa: &[usize], sb: &[usize], ext: bool) -> (String, String) {
     let (na, nb) = (sa.iter().product::<usize>(), sb.iter().product::<usize>());
     let da = if oi.dom == Dom::Small { Dom::Small } else { Dom::General };
     let db = oi.dom;
-    (show_vals(sa, &draw::<N>(rng, da, na)), show_vals(sb, &draw::<N>(rng, db, nb)))
+    (show_vals(sa, &draw::<N>(rng, da, na, ext)), show_vals(sb, &draw::<N>(rng, db, nb, ext)))
 }
-fn fill_ty(rng: &mut Rng, ty: &str, oi: &OpInfo, sa: &[usize], sb: &[usize]) -> (String, String) {
-    match ty { "i32" => fill::<i32>(rng, oi, sa, sb), "i64" => fill::<i64>(rng, oi, sa, sb), "u8" => fill::<u8>(rng, oi, sa, sb), _ => fill::<f64>(rng, oi, sa, sb) }
+fn fill_ty_x(rng: &mut Rng, ty: &str, oi: &OpInfo, sa: &[usize], sb: &[usize], ext: bool) -> (String, String) {
+    match ty {
+        "i32" => fill::<i32>(rng, oi, sa, sb, ext), "i64" => fill::<i64>(rng, oi, sa, sb, ext), "u8" => fill::<u8>(rng, oi, sa, sb, ext),
+        "i8" => fill::<i8>(rng, oi, sa, sb, ext), "i16" => fill::<i16>(rng, oi, sa, sb, ext), "u16" => fill::<u16>(rng, oi, sa, sb, ext),
+        "u32" => fill::<u32>(rng, oi, sa, sb, ext), "u64" => fill::<u64>(rng, oi, sa, sb, ext), "f32" => fill::<f32>(rng, oi, sa, sb, ext),
+        _ => fill::<f64>(rng, oi, sa, sb, ext) }
 }
+fn fill_ty(rng: &mut Rng, ty: &str, oi: &OpInfo, sa: &[usize], sb: &[usize]) -> (String, String) { fill_ty_x(rng, ty, oi, sa, sb, false) }
 /// a case line of the positional stream; the values depend only on (op, type, shapes, salt) — not on the run seed
 fn case_line(oi: &OpInfo, ty: &str, sa: &[usize], sb: &[usize], salt: u64) -> String {
     let mut rng = Rng::new(hash_str(&format!("{}|{}|{:?}|{:?}|{}", oi.name, ty, sa, sb, salt)));
     let (a, b) = fill_ty(&mut rng, ty, oi, sa, sb);
     format!("{} {} {} {} {}", oi.name, oi.pat, ty, a, b)
 }
+/// the same with the extended value pools (robustness streams)
+fn case_line_x(oi: &OpInfo, ty: &str, sa: &[usize], sb: &[usize], salt: u64) -> String {
+    let mut rng = Rng::new(hash_str(&format!("x|{}|{}|{:?}|{:?}|{}", oi.name, ty, sa, sb, salt)));
+    let (a, b) = fill_ty_x(&mut rng, ty, oi, sa, sb, true);
+    format!("{} {} {} {} {}", oi.name, oi.pat, ty, a, b)
+}
+/// write a zero of the element type at flat position `k` of the second operand
+fn with_zero_at(line: &str, ty: &str, k: usize, negative: bool) -> String {
+    let mut parts: Vec<String> = line.split(' ').map(String::from).collect();
+    let (sh, el) = parts[4].split_once(':').unwrap();
+    let mut toks: Vec<String> = el.split(',').map(String::from).collect();
+    toks[k] = if ty == "f64" || ty == "f32" { if negative { (-0.0f64).tok() } else { (0.0f64).tok() } } else { "0".to_string() };
+    parts[4] = format!("{}:{}", sh, toks.join(","));
+    parts.join(" ")
+}
+/// operand shapes derived from a big shape: (receiver, argument) pairs in which the argument / the receiver / both are stretched
+fn big_pairs(s: &[usize], both_ways: bool) -> Vec<(Vec<usize>, Vec<usize>)> {
+    let mut out = vec![(s.to_vec(), s.to_vec()), (s.to_vec(), vec![1])];
+    let r = s.len();
+    if r > 1 {
+        let mut first1 = s.to_vec(); first1[0] = 1;
+        let mut last1 = s.to_vec(); last1[r - 1] = 1;
+        out.push((s.to_vec(), s[1..].to_vec()));            // leading axis missing
+        out.push((s.to_vec(), last1.clone()));              // trailing unit axis stretched
+        if r > 2 { let mut mid1 = s.to_vec(); mid1[r / 2] = 1; out.push((s.to_vec(), mid1)); }   // inner unit axis stretched
+        if both_ways {
+            out.push((s[r - 1..].to_vec(), s.to_vec()));    // the receiver is stretched
+            out.push((first1.clone(), last1.clone()));      // both are stretched
+            out.push((last1, first1));
+        }
+    } else if both_ways { out.push((vec![1], s.to_vec())); }
+    out
+}
+
 /// put a zero (for f64: +0.0 or -0.0) somewhere into the second operand
 fn with_zero(line: &str, ty: &str, rng: &mut Rng) -> String {
     let mut parts: Vec<String> = line.split(' ').map(String::from).collect();
@@ -431,11 +585,17 @@ fn with_zero(line: &str, ty: &str, rng: &mut Rng) -> String {
 
 /// commute-safe values: every scalar kernel of the commutative ops is bit-exactly symmetric on them
 fn comm_vals(rng: &mut Rng, ty: &str, oi: &OpInfo, n: usize) -> Vec<String> {
-    if oi.dom == Dom::Small { let p: Vec<i64> = (0..=40).collect(); return (0..n).map(|_| { let v = *rng.pick(&p); if ty == "f64" { (v as f64).tok() } else { v.to_string() } }).collect(); }
+    if oi.dom == Dom::Small { let p: Vec<i64> = (0..=40).collect(); return (0..n).map(|_| { let v = *rng.pick(&p); if ty == "f64" || ty == "f32" { (v as f64).tok() } else { v.to_string() } }).collect(); }
     match ty {
-        "f64" => { let p = [1.0, -1.0, 0.5, 2.0, -2.5, 3.0, 7.0, -10.0, 0.25, 100.0, 2147483648.0, f64::INFINITY, f64::NEG_INFINITY, f64::NAN, 0.0, 12.0, 6.5, -3.0]; (0..n).map(|_| rng.pick(&p).tok()).collect() }
+        // (every value of the list is exactly representable in f32 too; both widths travel as f64 bit patterns)
+        "f64" | "f32" => { let p = [1.0, -1.0, 0.5, 2.0, -2.5, 3.0, 7.0, -10.0, 0.25, 100.0, 2147483648.0, f64::INFINITY, f64::NEG_INFINITY, f64::NAN, 0.0, 12.0, 6.5, -3.0]; (0..n).map(|_| rng.pick(&p).tok()).collect() }
         "u8" => (0..n).map(|_| rng.below(256).to_string()).collect(),
         "i32" => { let p = <i32 as Elem>::pool(Dom::General); (0..n).map(|_| rng.pick(&p).to_string()).collect() }
+        "i8" => { let p = <i8 as Elem>::pool_x(Dom::General); (0..n).map(|_| rng.pick(&p).to_string()).collect() }
+        "i16" => { let p = <i16 as Elem>::pool_x(Dom::General); (0..n).map(|_| rng.pick(&p).to_string()).collect() }
+        "u16" => { let p = <u16 as Elem>::pool_x(Dom::General); (0..n).map(|_| rng.pick(&p).to_string()).collect() }
+        "u32" => { let p = <u32 as Elem>::pool_x(Dom::General); (0..n).map(|_| rng.pick(&p).to_string()).collect() }
+        "u64" => { let p = <u64 as Elem>::pool_x(Dom::General); (0..n).map(|_| rng.pick(&p).to_string()).collect() }
         _ => { let p = <i64 as Elem>::pool(Dom::General); (0..n).map(|_| rng.pick(&p).to_string()).collect() }
     }
 }
@@ -532,6 +692,144 @@ fn gen(tier: &str, seed: u64, out: &mut dyn FnMut(String)) {
         for (sa, sb) in [(vec![0usize], vec![0usize]), (vec![2, 0], vec![2, 1]), (vec![0], vec![3]), (vec![1], vec![0])] {
             out(case_line(oi, ty, &sa, &sb, 2));
         }
+    }
+
+    // ================= robustness streams (FRAMEWORK.md); every case above and below runs on the plain, the Ok(_) and the Err(_) receiver
+    let mut rx = Rng::new(seed ^ 0xC04_0002);
+    // (v) element types i8 i16 u16 u32 u64 f32 on the exhaustive shape-pair scope (thorough: every pair; quick: every pair for one
+    //     of the new types in rotation + all of them on the rank<=2 pairs), values at the limits of the type
+    let small2 = shapes(1, 2, 1, 3);
+    for (oi_k, oi) in OPS.iter().enumerate() {
+        let tn = types_new(oi);
+        let mut k = 0usize;
+        for sa in &small { for sb in &small {
+            k += 1;
+            for (ti, ty) in tn.iter().enumerate() {
+                let low_rank = sa.len() <= 2 && sb.len() <= 2;
+                if thorough || low_rank || (k + oi_k) % tn.len() == ti { out(case_line_x(oi, ty, sa, sb, 0)); }
+            }
+        } }
+    }
+    // (vi) value classes on the original element types: integers beyond 2^53 and at the limits of i64 (the f64 round trip loses bits /
+    //      saturates), sub-EPSILON and f32-subnormal divisors, values around 2^63 / 2^64 / f32::MAX
+    for oi in OPS.iter() {
+        for ty in ["i64", "f64", "i32"] {
+            if !types_of(oi).contains(&ty) { continue; }
+            let scope = if thorough { &small } else { &small2 };
+            for sa in scope { for sb in scope { out(case_line_x(oi, ty, sa, sb, 3)); } }
+        }
+    }
+    // (vii) sizes: big_shapes() (axis lengths 7..17 in every position, > 256 / 1024 / 4096 elements), the argument, the receiver or
+    //       both stretched; quick: element types in rotation (every op meets every size class, every type meets every size class
+    //       through some op), thorough: every type
+    let bigs = big_shapes();
+    for (oi_k, oi) in OPS.iter().enumerate() {
+        let ta = types_all(oi);
+        let both_ways = matches!(oi.pat, "B" | "G" | "GM" | "IB");
+        for (si, s) in bigs.iter().enumerate() {
+            for (vi, (sa, sb)) in big_pairs(s, both_ways).iter().enumerate() {
+                let n: usize = sa.iter().product::<usize>().max(sb.iter().product());
+                for (ti, ty) in ta.iter().enumerate() {
+                    let pick = if thorough { n <= 1100 || (si + vi + oi_k) % 3 == ti % 3 } else { (si + vi + oi_k) % ta.len() == ti || (n <= 100 && (si + vi + oi_k + 5) % ta.len() == ti) };
+                    if pick { out(case_line_x(oi, ty, sa, sb, 4)); }
+                }
+            }
+        }
+    }
+    // (viii) zero-length axes: zero_shapes() against itself, a one-element, a stretchable and an unrelated operand, in both positions
+    for (oi_k, oi) in OPS.iter().enumerate() {
+        let ta = types_all(oi);
+        for (zi, z) in zero_shapes().iter().enumerate() {
+            let mut ones = z.clone(); for d in ones.iter_mut() { if *d == 0 { *d = 1; } }
+            for (vi, (sa, sb)) in [(z.clone(), z.clone()), (z.clone(), vec![1]), (vec![1], z.clone()), (z.clone(), ones.clone()), (ones.clone(), z.clone()), (z.clone(), vec![2, 3]), (vec![2], z.clone())].iter().enumerate() {
+                for (ti, ty) in ta.iter().enumerate() {
+                    if thorough || (zi + vi + oi_k) % ta.len() == ti || (zi + vi + oi_k + 3) % ta.len() == ti { out(case_line_x(oi, ty, sa, sb, 5)); }
+                }
+            }
+        }
+    }
+    // (ix) refusal beyond the small scope: the zero (for floats +0.0 / -0.0) at the LAST, a middle or the first position of a long
+    //      divisor, every division-family op x every element type
+    for name in DIVISION_FAMILY {
+        let oi = info(name).unwrap();
+        for (ti, ty) in types_all(oi).iter().enumerate() {
+            for (si, s) in [vec![9usize], vec![17, 16], vec![300], vec![1030], vec![4100], vec![70, 70], vec![2, 3, 4, 5, 2]].iter().enumerate() {
+                if !thorough && s.iter().product::<usize>() > 1100 && (si + ti) % 3 != 0 { continue; }
+                let n: usize = s.iter().product();
+                let (recv_shape, k) = match (si + ti) % 3 { 0 => (s.clone(), n - 1), 1 => (vec![1], n - 1), _ => (s.clone(), if rx.below(2) == 0 { 0 } else { n / 2 + 1 }) };
+                out(with_zero_at(&case_line_x(oi, ty, &recv_shape, s, 6), ty, k, (si + ti) % 2 == 0));
+            }
+            // new element types on the small scope
+            if !types_of(oi).contains(ty) {
+                for sa in &small2 { for sb in &small2 {
+                    let line = case_line_x(oi, ty, sa, sb, 7);
+                    let nb: usize = sb.iter().product();
+                    out(with_zero_at(&line, ty, rx.below(nb), rx.below(2) == 0));
+                } }
+            }
+        }
+    }
+    // (x) clip on every element type, big and zero-length receivers
+    let clip_info = o("clip", "R3", false, false, Dom::General);
+    let all10 = ["i32", "i64", "u8", "f64", "i8", "i16", "u16", "u32", "u64", "f32"];
+    let n_clip2 = if thorough { 12000 } else { 1500 };
+    for k in 0..n_clip2 {
+        let ty = all10[k % 10];
+        let sa = rx.pick(&small).clone();
+        let pick_bound = |rng: &mut Rng| -> Vec<usize> { match rng.below(5) { 0 => vec![1], 1 => rng.pick(&small).clone(), _ => { let k = rng.below(sa.len()); sa[k..].iter().map(|&d| if rng.below(3) == 0 { 1 } else { d }).collect() } } };
+        let (sl, sh) = (pick_bound(&mut rx), pick_bound(&mut rx));
+        let (a, l) = fill_ty_x(&mut rx, ty, &clip_info, &sa, &sl, true);
+        let (_, h) = fill_ty_x(&mut rx, ty, &clip_info, &sa, &sh, true);
+        out(format!("clip R3 {} {} {} {}", ty, a, l, h));
+    }
+    for (si, s) in bigs.iter().chain(zero_shapes().iter()).enumerate() {
+        let r = s.len();
+        let mut last1 = s.clone(); last1[r - 1] = if last1[r - 1] == 0 { 0 } else { 1 };
+        for (vi, (sl, sh)) in [(vec![1], vec![1]), (s.clone(), vec![1]), (s[r - 1..].to_vec(), s.clone()), (last1.clone(), s[r - 1..].to_vec())].iter().enumerate() {
+            for (ti, ty) in all10.iter().enumerate() {
+                if !(thorough && s.iter().product::<usize>() <= 1100) && (si + vi) % 10 != ti { continue; }
+                let (a, l) = fill_ty_x(&mut rx, ty, &clip_info, s, sl, true);
+                let (_, h) = fill_ty_x(&mut rx, ty, &clip_info, s, sh, true);
+                out(format!("clip R3 {} {} {} {}", ty, a, l, h));
+            }
+        }
+    }
+    // (xi) commutativity on the code: the new element types on every small shape, every type on big equal shapes
+    for (oi_k, oi) in OPS.iter().filter(|x| x.comm).enumerate() {
+        for ty in types_new(oi) {
+            for sa in &small {
+                let n: usize = sa.iter().product();
+                let (va, vb) = (comm_vals(&mut rx, ty, oi, n), comm_vals(&mut rx, ty, oi, n));
+                out(format!("comm {} {} {} {}:{} {}:{}", oi.name, oi.pat, ty, show_list(sa), va.join(","), show_list(sa), vb.join(",")));
+            }
+        }
+        let ta = types_all(oi);
+        for (si, s) in bigs.iter().enumerate() {
+            let n: usize = s.iter().product();
+            for (ti, ty) in ta.iter().enumerate() {
+                if !(thorough && n <= 1100) && (si + oi_k) % ta.len() != ti { continue; }
+                let (va, vb) = (comm_vals(&mut rx, ty, oi, n), comm_vals(&mut rx, ty, oi, n));
+                out(format!("comm {} {} {} {}:{} {}:{}", oi.name, oi.pat, ty, show_list(s), va.join(","), show_list(s), vb.join(",")));
+                // the both-stretch family also commutes on unequal compatible shapes
+                if matches!(oi.pat, "B" | "IB") && s.len() > 1 {
+                    let sb = s[1..].to_vec(); let nb: usize = sb.iter().product();
+                    let vb = comm_vals(&mut rx, ty, oi, nb);
+                    out(format!("comm {} {} {} {}:{} {}:{}", oi.name, oi.pat, ty, show_list(s), va.join(","), show_list(&sb), vb.join(",")));
+                }
+            }
+        }
+    }
+    // (xii) seeded random beyond the small scope on every element type with the extended pools: rank <= 4, len <= 4 / one long axis
+    let n_rand2 = if thorough { 60000 } else { 6000 };
+    for k in 0..n_rand2 {
+        let oi = &OPS[rx.below(OPS.len())];
+        let ta = types_all(oi);
+        let ty = *rx.pick(&ta);
+        let mut base = rx.shape(1, 4, 4);
+        if rx.below(4) == 0 { let p = rx.below(base.len()); base[p] = 7 + rx.below(11); }
+        let (sa, sb) = match rx.below(4) { 0 => (base.clone(), derive_shape(&mut rx, &base)), 1 => (derive_shape(&mut rx, &base), base.clone()), _ => (derive_shape(&mut rx, &base), derive_shape(&mut rx, &base)) };
+        let line = case_line_x(oi, ty, &sa, &sb, seed.wrapping_add(k as u64));
+        if DIVISION_FAMILY.contains(&oi.name) && rx.below(8) == 0 { let nb: usize = sb.iter().product(); out(with_zero_at(&line, ty, rx.below(nb), rx.below(2) == 0)); } else { out(line); }
     }
 }
 
